@@ -78,6 +78,9 @@ inductive RVal where
   | leaf (j : J)
   | list (vs : List RVal)
   | obj (ty : String)         -- `{"__typename__": ty}`
+  /-- a value whose COMPLETION raises `ResolverError(msg, extensions)`: a lazy iterable that yields `vs` and then raises
+      (list position), or a value whose `resolve_type` raises (abstract position) -/
+  | raise (vs : List RVal) (msg : String) (ext : Option J)
   deriving Repr, Inhabited
 
 inductive Outcome where
@@ -103,6 +106,7 @@ inductive ErrKind where
   | resolver (msg : String) (ext : Option J)
   | nonnull
   | coercion
+  | directive            -- invalid `@skip` / `@include` condition at run time (CoercionError turned into a ResolverError)
   deriving Repr, Inhabited
 
 structure Err where
@@ -111,14 +115,152 @@ structure Err where
   kind : ErrKind
   deriving Repr, Inhabited
 
-/-- how a request can fail to produce a response -/
+/-- how a computation inside a request can fail -/
 inductive Fail where
   | internal (cls : String)    -- a `raise`/exception that escapes the executor
   | outOfFuel                  -- model artefact (Python: unbounded recursion)
   | unsupported                -- outside the model (introspection fields, exotic resolver values)
-  deriving Repr, Inhabited, DecidableEq
+  /-- a `ResolverError` travelling up to the nearest enclosing `resolve_field` (or to `execute` for the root selection
+      set): its kind, its own locations if it has any (`none`: the field node's), and the errors already recorded by the
+      computation it interrupts (the error accumulator keeps them) -/
+  | raised (kind : ErrKind) (locs : Option (List Nat)) (inner : List Err)
+  deriving Repr, Inhabited
 
 abbrev R (α : Type) := Except Fail α
+
+/-! ### the three places where a `ResolverError` is shaped, kept as combinators so that proofs can invert them -/
+
+/-- the error accumulator keeps what was recorded before a later `ResolverError` interrupts the computation -/
+def Fail.keep (e : List Err) : Fail → Fail
+  | .raised k l inner => .raised k l (e ++ inner)
+  | f => f
+def keepErrs {α : Type} (e : List Err) : R α → R α
+  | .error f => .error (f.keep e)
+  | .ok x => .ok x
+
+/-- `ResolutionContext.collect_fields`: a `CoercionError` (invalid `@skip`/`@include` condition) becomes a `ResolverError`
+    carrying the directive argument's nodes (no field location) -/
+def Fail.directive : Fail → Fail
+  | .internal cls => if cls == "CoercionError" then .raised .directive (some []) [] else .internal cls
+  | f => f
+def catchDirective {α : Type} : R α → R α
+  | .error f => .error f.directive
+  | .ok x => .ok x
+
+/-- `try: complete_value(...) except ResolverError as err: add_error(err, path, node); return None` (`resolve_field`) -/
+def catchField (path : Path) (loc : Nat) : R (Data × List Err) → R (Data × List Err)
+  | .error (.raised k l inner) => .ok (.null, inner ++ [{ path := path, locs := l.getD [loc], kind := k }])
+  | r => r
+
+@[simp] theorem keepErrs_err {α : Type} (e : List Err) (f : Fail) : keepErrs e (.error f : R α) = .error (f.keep e) := rfl
+@[simp] theorem catchDirective_err {α : Type} (f : Fail) : catchDirective (.error f : R α) = .error f.directive := rfl
+@[simp] theorem Fail.keep_internal (e : List Err) (c : String) : (Fail.internal c).keep e = .internal c := rfl
+@[simp] theorem Fail.keep_outOfFuel (e : List Err) : Fail.outOfFuel.keep e = .outOfFuel := rfl
+@[simp] theorem Fail.keep_unsupported (e : List Err) : Fail.unsupported.keep e = .unsupported := rfl
+@[simp] theorem Fail.keep_raised (e : List Err) (k : ErrKind) (l : Option (List Nat)) (i : List Err) : (Fail.raised k l i).keep e = .raised k l (e ++ i) := rfl
+@[simp] theorem Fail.directive_outOfFuel : Fail.outOfFuel.directive = .outOfFuel := rfl
+@[simp] theorem Fail.directive_unsupported : Fail.unsupported.directive = .unsupported := rfl
+@[simp] theorem Fail.directive_raised (k : ErrKind) (l : Option (List Nat)) (i : List Err) : (Fail.raised k l i).directive = .raised k l i := rfl
+@[simp] theorem Fail.keep_eq_outOfFuel (e : List Err) (f : Fail) : f.keep e = .outOfFuel ↔ f = .outOfFuel := by
+  cases f <;> simp [Fail.keep]
+@[simp] theorem Fail.keep_eq_unsupported (e : List Err) (f : Fail) : f.keep e = .unsupported ↔ f = .unsupported := by
+  cases f <;> simp [Fail.keep]
+@[simp] theorem Fail.keep_eq_internal (e : List Err) (f : Fail) (c : String) : f.keep e = .internal c ↔ f = .internal c := by
+  cases f <;> simp [Fail.keep]
+@[simp] theorem keepErrs_ok {α : Type} (e : List Err) (x : α) : keepErrs e (.ok x : R α) = .ok x := rfl
+@[simp] theorem keepErrs_eq_ok {α : Type} (e : List Err) (r : R α) (x : α) : keepErrs e r = .ok x ↔ r = .ok x := by
+  cases r with
+  | ok y => simp
+  | error f => cases f <;> simp [keepErrs]
+theorem keepErrs_error {α : Type} (e : List Err) (r : R α) (f : Fail) (h : keepErrs e r = .error f) :
+    (r = .error f ∧ ∀ k l i, f ≠ .raised k l i) ∨ ∃ k l i, r = .error (.raised k l i) ∧ f = .raised k l (e ++ i) := by
+  cases r with
+  | ok y => simp at h
+  | error g =>
+    cases g with
+    | raised k l i => simp [keepErrs] at h; exact Or.inr ⟨k, l, i, rfl, h.symm⟩
+    | internal c => simp [keepErrs] at h; subst h; exact Or.inl ⟨rfl, by intros; simp⟩
+    | outOfFuel => simp [keepErrs] at h; subst h; exact Or.inl ⟨rfl, by intros; simp⟩
+    | unsupported => simp [keepErrs] at h; subst h; exact Or.inl ⟨rfl, by intros; simp⟩
+@[simp] theorem keepErrs_internal {α : Type} (e : List Err) (r : R α) (c : String) : keepErrs e r = .error (.internal c) ↔ r = .error (.internal c) := by
+  cases r with
+  | ok y => simp
+  | error f => cases f <;> simp [keepErrs]
+@[simp] theorem keepErrs_outOfFuel {α : Type} (e : List Err) (r : R α) : keepErrs e r = .error .outOfFuel ↔ r = .error .outOfFuel := by
+  cases r with
+  | ok y => simp
+  | error f => cases f <;> simp [keepErrs]
+@[simp] theorem keepErrs_unsupported {α : Type} (e : List Err) (r : R α) : keepErrs e r = .error .unsupported ↔ r = .error .unsupported := by
+  cases r with
+  | ok y => simp
+  | error f => cases f <;> simp [keepErrs]
+
+@[simp] theorem catchField_ok (path : Path) (loc : Nat) (x : Data × List Err) : catchField path loc (.ok x) = .ok x := rfl
+@[simp] theorem catchField_raised (path : Path) (loc : Nat) (k : ErrKind) (l : Option (List Nat)) (i : List Err) :
+    catchField path loc (.error (.raised k l i)) = .ok (.null, i ++ [{ path := path, locs := l.getD [loc], kind := k }]) := rfl
+@[simp] theorem catchField_internal (path : Path) (loc : Nat) (r : R (Data × List Err)) (c : String) :
+    catchField path loc r = .error (.internal c) ↔ r = .error (.internal c) := by
+  cases r with
+  | ok y => simp
+  | error f => cases f <;> simp [catchField]
+@[simp] theorem catchField_outOfFuel (path : Path) (loc : Nat) (r : R (Data × List Err)) :
+    catchField path loc r = .error .outOfFuel ↔ r = .error .outOfFuel := by
+  cases r with
+  | ok y => simp
+  | error f => cases f <;> simp [catchField]
+@[simp] theorem catchField_unsupported (path : Path) (loc : Nat) (r : R (Data × List Err)) :
+    catchField path loc r = .error .unsupported ↔ r = .error .unsupported := by
+  cases r with
+  | ok y => simp
+  | error f => cases f <;> simp [catchField]
+@[simp] theorem catchField_ne_raised (path : Path) (loc : Nat) (r : R (Data × List Err)) (k : ErrKind) (l : Option (List Nat)) (i : List Err) :
+    catchField path loc r ≠ .error (.raised k l i) := by
+  cases r with
+  | ok y => simp
+  | error f => cases f <;> simp [catchField]
+/-- inversion of a successful `resolve_field` completion: either the value completed, or a `ResolverError` was caught -/
+theorem catchField_eq_ok (path : Path) (loc : Nat) (r : R (Data × List Err)) (d : Data) (es : List Err)
+    (h : catchField path loc r = .ok (d, es)) :
+    r = .ok (d, es) ∨ ∃ k l i, r = .error (.raised k l i) ∧ d = .null ∧ es = i ++ [{ path := path, locs := l.getD [loc], kind := k }] := by
+  cases r with
+  | ok y => simp at h; exact Or.inl (by rw [h])
+  | error f =>
+    cases f with
+    | raised k l i => simp at h; exact Or.inr ⟨k, l, i, rfl, h.1.symm, h.2.symm⟩
+    | internal c => simp [catchField] at h
+    | outOfFuel => simp [catchField] at h
+    | unsupported => simp [catchField] at h
+
+theorem Fail.directive_internal (c : String) :
+    (Fail.internal c).directive = if c = "CoercionError" then .raised .directive (some []) [] else .internal c := by
+  simp [Fail.directive]
+@[simp] theorem catchDirective_ok {α : Type} (x : α) : catchDirective (.ok x : R α) = .ok x := rfl
+@[simp] theorem catchDirective_eq_ok {α : Type} (r : R α) (x : α) : catchDirective r = .ok x ↔ r = .ok x := by
+  cases r <;> simp
+@[simp] theorem Fail.directive_eq_outOfFuel (f : Fail) : f.directive = .outOfFuel ↔ f = .outOfFuel := by
+  cases f with
+  | internal c => rw [Fail.directive_internal]; split <;> simp
+  | _ => simp
+@[simp] theorem Fail.directive_eq_unsupported (f : Fail) : f.directive = .unsupported ↔ f = .unsupported := by
+  cases f with
+  | internal c => rw [Fail.directive_internal]; split <;> simp
+  | _ => simp
+/-- the conversion removes exactly the `CoercionError`: every other internal error passes through unchanged -/
+theorem Fail.directive_eq_internal (f : Fail) (c : String) : f.directive = .internal c ↔ f = .internal c ∧ c ≠ "CoercionError" := by
+  cases f with
+  | internal c' =>
+    rw [Fail.directive_internal]
+    by_cases hc : c' = "CoercionError"
+    · subst hc; simp; intro h; exact h.symm
+    · simp [hc]; intro h; subst h; exact hc
+  | _ => simp
+@[simp] theorem catchDirective_outOfFuel {α : Type} (r : R α) : catchDirective r = .error .outOfFuel ↔ r = .error .outOfFuel := by
+  cases r <;> simp
+@[simp] theorem catchDirective_unsupported {α : Type} (r : R α) : catchDirective r = .error .unsupported ↔ r = .error .unsupported := by
+  cases r <;> simp
+theorem catchDirective_internal {α : Type} (r : R α) (c : String) :
+    catchDirective r = .error (.internal c) ↔ r = .error (.internal c) ∧ c ≠ "CoercionError" := by
+  cases r <;> simp [Fail.directive_eq_internal]
 
 /-! ### schema queries -/
 
